@@ -10,7 +10,6 @@ import (
 	"testing"
 
 	"github.com/cockroachdb/errors"
-	"github.com/cockroachdb/errors/errorspb"
 	"github.com/cockroachdb/redact"
 	"pgregory.net/rapid"
 
@@ -88,17 +87,7 @@ func Check(c *pbt.Case, r *pbt.R) {
 		// The error arrives from a process running the previous version
 		// of the library, whose barriers have another type name and a
 		// plain (not redactable) message: the raw text.
-		var texts []string
-		if vis, err := gen.Visible(c.Spec, e); err == nil {
-			for _, v := range vis {
-				if v.Layer().Typ == "*barriers.barrierErr" {
-					texts = append(texts, v.Text())
-				}
-			}
-		}
-		enc := wire.Unmarshal(wire.Encode(e))
-		legacyBarriers(&enc, &texts)
-		e = errors.DecodeError(wire.Ctx, enc)
+		e = wire.FromLegacyBarrierPeer(e, gen.BarrierTexts(c.Spec, e))
 	case "opaque":
 		enc := wire.Unmarshal(wire.Encode(e))
 		wire.Rename(&enc, func(string) bool { return true })
@@ -170,28 +159,6 @@ func Check(c *pbt.Case, r *pbt.R) {
 	}
 	if boundary {
 		r.Count("features", "hostile atom at a string boundary")
-	}
-}
-
-// legacyBarriers rewrites the visible barrier leaves (pre-order, the
-// order of gen.Visible) into what the previous version of the
-// library sent: old type name, plain message.
-func legacyBarriers(enc *errorspb.EncodedError, texts *[]string) {
-	if w := enc.GetWrapper(); w != nil {
-		legacyBarriers(&w.Cause, texts)
-		return
-	}
-	if l := enc.GetLeaf(); l != nil {
-		const cur, old = "barriers/*barriers.barrierErr", "barriers/*barriers.barrierError"
-		if strings.HasSuffix(l.Details.ErrorTypeMark.FamilyName, cur) && len(*texts) > 0 {
-			l.Details.ErrorTypeMark.FamilyName = strings.TrimSuffix(l.Details.ErrorTypeMark.FamilyName, cur) + old
-			l.Details.OriginalTypeName = l.Details.ErrorTypeMark.FamilyName
-			l.Message = (*texts)[0]
-			*texts = (*texts)[1:]
-		}
-		for _, c := range l.MultierrorCauses {
-			legacyBarriers(c, texts)
-		}
 	}
 }
 
